@@ -5,14 +5,20 @@ from core import Case, nlist
 from pyerr import canon_call, exc_code
 
 PROP = 'C02'
-COQ_TARGETS = ['theories/TagFacts.vo']
+COQ_TARGETS = ['theories/TagFacts.vo', 'theories/TagGenFacts.vo']
+TABLE_OBLIGATIONS = ['gen_Tag_encode_eq', 'gen_Tag_decode_eq', 'gen_TagList_encode_eq', 'gen_TagList_decode_eq']   # about coq/gen/TagFns.v
 COQ_IMPORTS = 'From Bac Require Import Base Tag.'
 RULE = ('cases: every octet string of length <= 2 (quick) / <= 3 sampled+exhaustive-2 (thorough) decoded by TagList.decode; '
         'tag lists over class x number {0,1,14,15,16,254,255} x length {0,1,4,5,6,253,254,255,65535,65536,70000} encoded by '
         'TagList.encode; all Dyck nestings of <= 4 groups with leaves, and every single-deletion unbalancing, through get_context and '
         'Any.decode; seeded random/mutated streams.  non-trivial = decodes to >= 1 tag, or is refused after >= 1 octet, '
         'or encodes >= 1 tag; distinct by (operation, input).')
-TRUSTED = ['model coq/theories/Tag.v written by hand after primitivedata.py:99-178,388-445 and constructeddata.py Any.decode; tie = correspondence']
+TRUSTED = ['translator/gen_tagfns.py: Tag.encode/decode and TagList.encode/decode of primitivedata.py are re-translated statement by statement '
+           'into coq/gen/TagFns.v on every run and proved equal to the hand model for all inputs (coq/theories/TagGenFacts.v); trusted: the '
+           'Python-ast -> Gallina rules (ints as N, bytearray buffer as list N, evaluation order), the class/record vocabulary map, and that '
+           'only docstrings, `pass` and `if _debug:` lines are skipped',
+           'comm.PDUData (put/get/put_short/get_short/put_long/get_long/get_data = Base.v), TagList.get_context and Any.decode remain hand-modelled '
+           '(coq/theories/Tag.v after primitivedata.py:388-435 and constructeddata.py Any.decode); their tie = correspondence']
 ASSUMPTIONS = ['bytes/bytearray hold octets < 256 (CPython)', 'tag data lengths >= 2^32 are not generated (memory)']
 
 
